@@ -347,3 +347,26 @@ by rewrite -[1]/(1%:R) eqr_nat.
 Qed.
 
 End CacheRefute.
+
+(* ------------------------------------------------------------------ the last step of the CIQ branch: K applied to each shifted solve.
+   `K x = s x - b` is the same statement as `(s I - K) x = b`: the matmul can be replaced by that shortcut exactly when x is
+   the exact resolvent applied to b — not for what a preconditioned MINRES returns before the preconditioner is undone. *)
+Section CiqShortcut.
+Variable F : rcfType.
+
+Lemma ciq_shortcut_iff n (K : 'M[F]_n) (x b : 'cV[F]_n) (s : F) :
+  (K *m x == s *: x - b) = ((s%:M - K) *m x == b).
+Proof.
+rewrite mulmxBl mul_scalar_mx.
+by rewrite [LHS]eq_sym !subr_eq [K *m x + b]addrC.
+Qed.
+
+Lemma ciq_shortcut_refuted :
+  exists (K : 'M[F]_1) (x b : 'cV[F]_1) (s : F), K *m x != s *: x - b.
+Proof.
+exists 1%:M, (const_mx 1), (const_mx 1), 1.
+rewrite mul1mx scale1r subrr; apply/eqP => /matrixP /(_ ord0 ord0); rewrite !mxE => /eqP.
+by rewrite oner_eq0.
+Qed.
+
+End CiqShortcut.
